@@ -174,7 +174,9 @@ package main
 //@   ghost attacked bool = false
 //@   ghost bodyRead bool = false
 //@   at call Attack: ghost attacked = true
-//@   at call ReadAll: ghost bodyRead = true
+//@   at call ReadAll: ghost bodyRead = true ; ghost bodyPtr = ptr(result0) ; ghost bodyLen = len(result0)
+//@   ghost bodyPtr ref = 0
+//@   ghost bodyLen int = 0
 //@   ghost libtr ref = 0
 //@   ghost libenc ref = 0
 //@   at call NewJSONTargeter: ghost libtr = ref(result)
@@ -190,8 +192,8 @@ package main
 //@   at call DNSCaching: ghost dialWrapped = true
 //@   at call ConnectTo: ghost dialWrapped = true
 //@   before call KeepAlive: assert [keep-alive-is-configured-before-the-dial-wrappers-it-would-discard] !dialWrapped
-//@   before call NewJSONTargeter: assert [default-body-and-headers-forwarded] (opts.bodyf != "" ==> bodyRead) && arg1 == body && arg2 == old(opts.headers.Header)
-//@   before call NewHTTPTargeter: assert [default-body-and-headers-forwarded] (opts.bodyf != "" ==> bodyRead) && arg1 == body && arg2 == old(opts.headers.Header)
+//@   before call NewJSONTargeter: assert [default-body-and-headers-forwarded] (opts.bodyf != "" ==> bodyRead) && arg1 == body && arg2 == old(opts.headers.Header) && (bodyRead ==> ptr(arg1) == bodyPtr && len(arg1) == bodyLen)
+//@   before call NewHTTPTargeter: assert [default-body-and-headers-forwarded] (opts.bodyf != "" ==> bodyRead) && arg1 == body && arg2 == old(opts.headers.Header) && (bodyRead ==> ptr(arg1) == bodyPtr && len(arg1) == bodyLen)
 //@   before call Redirects: assert [flag-forwarded-unchanged] arg0 == old(opts.redirects)
 //@   before call Timeout: assert [flag-forwarded-unchanged] arg0 == old(opts.timeout)
 //@   before call Workers: assert [flag-forwarded-unchanged] arg0 == old(opts.workers)
@@ -267,6 +269,17 @@ package main
 //@   at call Add: assert [adds-the-record-just-decoded] rec(arg1) == ditem(d, n) && !closedPlot ; ghost n = n + 1
 //@   at call Close: ghost closedPlot = true
 //@   before call Label: assert [series-are-split-by-the-error-field] fname(arg0) == "ErrorLabeler"
+//@   ghost e1 ref = 0
+//@   ghost e2 ref = 0
+//@   ghost e3 ref = 0
+//@   ghost e4 ref = 0
+//@   ghost e5 ref = 0
+//@   at call decoder: ghost e1 = ref(result2)
+//@   at call file: ghost e2 = ref(result1)
+//@   at call Decode: ghost e3 = ref(result)
+//@   at call Add: ghost e4 = ref(result)
+//@   at call WriteTo: ghost e5 = ref(result1)
+//@   ensures [fails-only-when-reading-plotting-or-writing-fails] err != nil ==> ref(err) == e1 || ref(err) == e2 || ref(err) == e3 || ref(err) == e4 || ref(err) == e5
 //@   before call WriteTo: assert [written-after-close] closedPlot
 //@   ensures [all-records-plotted-unless-interrupted] err == nil && !interrupted && d != 0 ==> n == dlen(d)
 //@   loop 1
